@@ -3,7 +3,9 @@ import json
 import re
 
 from lib import common as C
+from lib import corr
 from lib import methgen
+from lib import retgen
 from lib.flow import Failure
 from props import c09, c14
 
@@ -11,7 +13,12 @@ MANIFEST = {
     "text": "Theorems C15_* (Coq): the reference rule of the property — a parameter's type is the union, by T.AppendVariant, of "
             "the argument types of all call sites — is proved to cover every call site and to hold nothing else (one variant "
             "per distinct class, scalar argument types, through the model of AppendVariant). How ti reaches that union (four "
-            "rounds of replace-or-union in propagationForCalledTo, snapshots of argument types) is not modelled. Tie: "
+            "rounds of replace-or-union in propagationForCalledTo, snapshots of argument types) is not modelled. The type of a "
+            "call: on a model of the return collection (AppendLastReturnT, Return.Evaluation, Def.evaluationBody, the block of "
+            "a lambda) the method's type holds exactly the value of the body's last statement and the `return` values written "
+            "outside lambdas, at any depth of blocks (C15_returns_collected); generated bodies (expression statements, returns, "
+            "three block forms, three lambda forms, nesting <= 2) are run through ti and compared with the model by vm_compute "
+            "(order included) and with the reference. Tie: "
             "AppendVariant / UnifyVariants against the model (C09's correspondence) and the keyword sorters (C14's); end to "
             "end, generated programs with 1-4 user methods (positional, default and keyword parameters, explicit returns) and "
             "1-5 call sites each — after the definition, inside a method defined before the callee, inside a method defined "
@@ -23,14 +30,13 @@ MANIFEST = {
     "technique": "Coq proof (the union over call sites covers each of them, via the AppendVariant model); correspondence by "
                  "vm_compute for the union operations; end-to-end comparison with the union over known call sites",
 }
-REQUIRES = ["Model/Infer.v"]
-RULE = ("programs of 1-4 methods, 1-2 positional parameters, 40% a default parameter, 40% a keyword parameter, 40% an explicit "
+REQUIRES = ["Model/Infer.v", "Model/Returns.v"]
+RULE = ("return collection: bodies of 1-4 statements, nesting <= 2; programs of 1-4 methods, 1-2 positional parameters, 40% a default parameter, 40% a keyword parameter, 40% an explicit "
         "return; call sites at top level after the definition and inside early / late caller methods; variants compared as "
         "sets; non-trivial = a parameter meets at least two different types")
 TRUSTED = []
 ASSUMPTIONS = ["argument types are scalar (Integer, String, Float, Symbol)"]
-PARTIAL = ["the four-round propagation is explored, not modelled", "a `return` inside a lambda in a method body counts as a return of the "
-           "method (kept finding C11-lambda-return)"]
+PARTIAL = ["the four-round propagation is explored, not modelled"]
 
 
 def run(src):
@@ -127,7 +133,44 @@ def part_keyword_prefix_names(ctx, part):
                 a, b, sorted(want_a), sorted(want_b), (got.get(2) or [None])[0], (got.get(3) or [None])[0]), {"program": src}))
 
 
-PARTS = [c09.part_tyops_corr, c14.part_sorters, part_e2e, part_keyword_prefix_names, part_body_operations]
+def part_returns_tie(ctx, part):
+    """def bodies of expression statements, returns, blocks and lambdas: the type of the call against `method_type true`
+    (by vm_compute) and against the reference (outer returns + last value)"""
+    def one(i):
+        r = C.rng_for(ctx.pid, ctx.seed, "ret%d" % i)
+        body = retgen.gen_body(r)
+        src, row = retgen.program(body)
+        return body, src, row, run(src)
+
+    terms, kept = [], []
+    for body, src, row, (x, got) in C.pmap(one, list(range(ctx.n(150, 1500))), par=8):
+        part.evaluations += 1
+        if x.timeout:
+            continue
+        line = (got.get(row) or [None])[0]
+        m = re.match(r'^Union<(.*)>$', line or "")
+        g = m.group(1).split(" ") if m else [line]
+        for k in ("return", "block", "lambda"):
+            if retgen.has(body, k):
+                part.count("has_" + k)
+        if retgen.has(body, "lambda") or retgen.has(body, "block"):
+            part.nontrivial.add(src)
+        want = retgen.reference(body)
+        if sorted(want) != sorted(str(c) for c in g) or len(x.out.strip().split("\n")) != 1:
+            part.failures.append(Failure("call_type_wrong", "the call of a method whose body returns %s is reported as %s (output: %r)" % (
+                want, line, x.out[:200]), {"program": src}))
+        else:
+            part.agreed += 1
+        terms.append("(%s, %s)" % (retgen.coq_body(body), C.coq_list([C.coq_str(str(c)) for c in g])))
+        kept.append(src)
+        part.sample({"statements": len(body), "lambda": retgen.has(body, "lambda"), "block": retgen.has(body, "block")})
+    bad = corr.coq_mismatches(["Model.Returns"], "list rstmt * list string",
+                              "fun c => list_eqb String.eqb (method_type true (fst c)) (snd c)", terms, chunk=300)
+    for i in bad:
+        part.mismatches.append({"fn": "Return.Evaluation / Do.Evaluation / Def.evaluationBody (return collection)", "program": kept[i]})
+
+
+PARTS = [c09.part_tyops_corr, c14.part_sorters, part_returns_tie, part_e2e, part_keyword_prefix_names, part_body_operations]
 
 CALL_BEFORE_DEF = "dbtp um2(1.5, \"s\", k2: 1)\ndef um2(p20, p21, k2:)\n  if p20\n    return \"s\"\n  end\n  p21\nend\ndbtp um2(1, :a, k2: 1)\n"
 ROUND_WITNESS = "def early_caller\n  um1(1, 1.5, \"s\")\n  1\nend\ndef um1(p0, p1, p2)\n  dbtp p2\n  p0\nend\num1(:a, :a, 1)\nearly_caller()\n"
